@@ -737,8 +737,14 @@ def openmode_obs():
                note='check / fix / audit-only, 1..6 parity levels, every skip / exclusion / open / create / resize outcome; parity_* and state_check_process by recording stub')]
 
 
+def touch_obs():
+    return [Ob('touch.state_touch', 'harness/h_touch.c', 'h_touch', unwind=6, small_path=True, timeout=600, mem=6, cost=3, kind='bounded', bound='one recorded file on one disk', replay=False,
+               functions=['state_touch (cmdline/touch.c, whole translation unit; system calls routed to recording stubs)'],
+               note='every recorded and on-disk nanosecond value, every outcome of open / fstat / fmtime / close, random values')]
+
+
 def c12(tier, seed):
-    return openmode_obs() + [o for o in main_obs() if o.name in ('main.dispatch.region', 'main.diff_branch.region')] + writeback_obs() + filepost_obs() + links_obs()
+    return openmode_obs() + [o for o in main_obs() if o.name in ('main.dispatch.region', 'main.diff_branch.region')] + writeback_obs() + filepost_obs() + links_obs() + touch_obs()
 
 
 def c11(tier, seed):
